@@ -57,12 +57,12 @@ def spec_name(pid):
 
 def gen_defs(tr):
     out = [HEADER % ', '.join('lcapy/%s sha256 %s' % (f, h[:12]) for f, h in sorted(tr.files.items()))]
-    for e in tr.entries:
+    for e in tr.entries or []:
         if printable(e['fwd']) and printable(e['inv']):
             out.append('(* fourier.py line %d [%s]: return %s *)' % (e['line'], e['pid'], e['src']))
             out.append('Definition fwd_%d : fn := %s.' % (e['line'], T.coq_fn(e['fwd'])))
             out.append('Definition inv_%d : fn := %s.' % (e['line'], T.coq_fn(e['inv'])))
-    for d, pre in (('fwd', 'fwd_'), ('inv', 'inv_')):
+    for d, pre in ((('fwd', 'fwd_'), ('inv', 'inv_')) if tr.entries is not None else ()):
         rows = ['(%d%%nat, %s%d)' % (PIDNUM[e['pid']], pre, e['line']) for e in tr.entries if e['pid'] in PIDNUM]
         out.append('(* first match wins, as in the elif chain *)')
         out.append('Definition gen_tbl_%s : list (nat * fn) := [%s].' % (d, '; '.join(rows)))
@@ -103,7 +103,7 @@ def gen_table_obligations(tr, meta):
        table_inv_<line>:   translated inverse closed form = textbook closed form at -x  (IFT = FT with f -> -f).
        One file per theorem, so that a broken entry does not hide the others."""
     files = {}
-    for e in tr.entries:
+    for e in tr.entries or []:
         pid = e['pid']
         if pid in UNSPECIFIED:
             meta['unspecified'].append({'line': e['line'], 'pid': pid, 'why': UNSPECIFIED[pid], 'src': e['src']})
@@ -154,21 +154,25 @@ def gen_var_obligations(tr, meta):
 def structural_checks(tr):
     """facts about the non-table returns that the hand model relies on; returns list of (name, ok, detail)"""
     res = []
-    for e in tr.entries:
+    # parts that could not be translated at all are reported by the caller (tr.errors)
+    for e in tr.entries or []:
         if e['pid'].startswith('O_sympy'):
             ok = e['fwd'] == ('mul', ('par', 0), ('sympy', ('var',))) and e['inv'] == ('mul', ('par', 0), ('sympy', ('neg', ('var',))))
             res.append(('sympy_punt_uses_sf_%d' % e['line'], ok, e['src']))
         if e['pid'] == 'R_expand':
             ok = e['fwd'] == ('mul', ('linear',), ('par', 0)) and e['inv'] == e['fwd']
             res.append(('expand_functions_is_linear_%d' % e['line'], ok, e['src']))
-    res.append(('transformer_key_is_expr_t_f', tr.facts.get('key') == 'return (expr, t, f)', str(tr.facts.get('key'))))
-    res.append(('sympy_fourier_transform_called', bool(tr.facts.get('sympy_call')), ''))
-    res.append(('inverse_is_same_table_with_is_inverse', tr.inverse == {'is_inverse': True, 'overrides': ['check', 'noevaluate']}, str(tr.inverse)))
-    res.append(('doit_skeleton', tr.doit == {'key_excludes_const': True, 'cache_stores_unscaled': True, 'retry': 'partfrac'}, str(tr.doit)))
-    pids = [e['pid'] for e in tr.entries]
-    for need in list(PIDNUM) + list(RULES):
-        if need not in pids:
-            res.append(('entry_present_%s' % need, False, 'no return for pattern %s' % need))
+    if tr.entries is not None:
+        res.append(('transformer_key_is_expr_t_f', tr.facts.get('key') == 'return (expr, t, f)', str(tr.facts.get('key'))))
+        res.append(('sympy_fourier_transform_called', bool(tr.facts.get('sympy_call')), ''))
+        pids = [e['pid'] for e in tr.entries]
+        for need in list(PIDNUM) + list(RULES):
+            if need not in pids:
+                res.append(('entry_present_%s' % need, False, 'no return for pattern %s' % need))
+    if tr.inverse is not None:
+        res.append(('inverse_is_same_table_with_is_inverse', tr.inverse == {'is_inverse': True, 'overrides': ['check', 'noevaluate']}, str(tr.inverse)))
+    if tr.doit is not None:
+        res.append(('doit_skeleton', tr.doit == {'key_excludes_const': True, 'cache_stores_unscaled': True, 'retry': 'partfrac'}, str(tr.doit)))
     return res
 
 
